@@ -59,6 +59,8 @@ EndPublish == /\ pc = "delivering" /\ idx > snap.len /\ pc' = "done"
 Next == StartPublish \/ Deliver \/ EndPublish \/ DoSub \/ \E s \in SubSet \cup {Extra} : DoUnsub(s)
 Spec == Init /\ [][Next]_vars
 
+\* the registered list now (what a later Publish snapshots)
+Current == SubSeq(arrays[subs.arr], 1, subs.len)
 Count(s) == Cardinality({i \in 1..Len(log) : log[i] = s})
 \* never twice for one value, whoever it is
 Inv_AtMostOnce == \A s \in SubSet \cup {Extra} : Count(s) <= 1
